@@ -7,8 +7,8 @@ package main
 // R13b: no nondeterminism source (map iteration order, time, rand) in that set.
 
 import (
-	"go/token"
 	"fmt"
+	"go/token"
 	"go/types"
 	"sort"
 	"strings"
